@@ -99,7 +99,8 @@ def dsn_of(node: Any) -> str:
 
 
 class StubNode:
-	def __init__(self, module_path: str, full_path: str, fullyname: str, cls: bool, decl: bool) -> None:
+	def __init__(self, module_path: str, full_path: str, fullyname: str, cls: bool, decl: bool, alt: bool = False) -> None:
+		self.alt = alt  # a type alias (defs.AltClass), which is a ClassDef too
 		self.module_path = module_path
 		self.full_path = full_path
 		self.fullyname = fullyname
@@ -113,7 +114,7 @@ class StubNode:
 
 	def is_a(self, *ctor: type) -> bool:
 		import rogw.tranp.syntax.node.definition as defs
-		return self.cls and defs.ClassDef in ctor
+		return self.cls and (defs.ClassDef in ctor or (self.alt and defs.AltClass in ctor))
 
 	def as_a(self, expect: type) -> 'StubNode':
 		from rogw.tranp.errors import Errors
@@ -200,7 +201,8 @@ def stub_classes(rng: random.Random, traits: Any, n: int) -> tuple[dict[str, Any
 	names = rng.sample([f'{m}#{x}' for m in MODS for x in NAMES], n)
 	for i, key in enumerate(names):
 		m, local = key.split('#')
-		node = StubNode(m, f'file_input.class_def[{i}]', key, True, True)
+		# every third class is a type alias (class_assign): the table treats it like any class entry
+		node = StubNode(m, f'file_input.class_def[{i}]' if i % 3 else f'file_input.class_assign[{i}]', key, True, True, alt=i % 3 == 0)
 		nodes[key] = node
 		entries[key] = class_entry(traits, node)
 	return entries, nodes
@@ -812,8 +814,54 @@ class ProgGen:
 		if not tv_late:
 			lines += [f"{tv} = TypeVar('{tv}')" for tv in tvs]
 
+		# the aliases: declared right after the class of the same index (so that the actual type can name that class); plain, generic
+		# (type parameters of the module), or an alias of an alias
+		alias_plan: dict[int, tuple[str, int]] = {}
+		for idx in range(len(plan)):
+			if rng.random() < 0.6:
+				alias_plan[idx] = (f'A{tag}{idx}', rng.choice([0, 0, 1, 1, n_tv]))
+
 		def later_of(idx: int) -> list[tuple[str, int]]:
-			return [(c, a) for c, _, a in plan[idx + 1:]]
+			return [(c, a) for c, _, a in plan[idx + 1:]] + [al for j, al in alias_plan.items() if j >= idx]
+
+		def alias_decl(idx: int) -> list[str]:
+			a, arity = alias_plan[idx]
+			my = tvs[:arity]
+			own = [(c, ar) for c, k, ar in plan[:idx + 1] if k == 'generic']
+			own_plain = [c for c, k, _ in plan[:idx + 1] if k != 'generic']
+			r = rng.random()
+			if arity:
+				# the actual type is built from the type parameters and, preferably, a class of this module
+				if own and r < 0.6:
+					g, ga = rng.choice(own)
+					inner = f"{g}[{', '.join((my * ga)[:ga])}]"
+				elif own_plain and r < 0.8:
+					inner = f'tuple[{rng.choice(own_plain)}, {my[0]}]'
+				else:
+					inner = self.type_expr(max(1, self.depth - 1), scope, my)
+					if not any(tv in inner for tv in my):
+						inner = f'tuple[{inner}, {my[0]}]'
+				rest = ''.join(f', {tv}' for tv in my[1:] if tv not in inner)
+				expr = rng.choice([f'dict[str, {inner}]', f'list[{inner}]', f'tuple[{inner}{rest}, int]', f'{inner} | None']) if not rest else f'tuple[{inner}{rest}]'
+			elif scope['aliases'] and r < 0.25:
+				# alias of an alias, bare or wrapped
+				prev = rng.choice(scope['aliases'])
+				expr = rng.choice([prev, f'list[{prev}]', f'dict[str, {prev}]'])
+			elif (own or own_plain) and r < 0.7:
+				if own and (not own_plain or rng.random() < 0.5):
+					g, ga = rng.choice(own)
+					expr = f"dict[str, {g}[{', '.join(self.type_expr(1, scope) for _ in range(ga))}]]"
+				else:
+					expr = rng.choice([f'list[{rng.choice(own_plain)}]', rng.choice(own_plain)])
+			else:
+				expr = self.type_expr(self.depth, scope)
+			if arity:
+				scope['generics'].append((a, arity))
+				mine['generics'].append((a, arity))
+			else:
+				scope['aliases'].append(a)
+				mine['aliases'].append(a)
+			return [f'{a}: TypeAlias = {expr}']
 
 		def add_scope(c: str, kind: str, arity: int) -> None:
 			if kind == 'generic':
@@ -825,13 +873,8 @@ class ProgGen:
 
 		# leading function / alias / variable that may mention every planned class
 		if rng.random() < 0.7:
-			decls.append(self.function(f'f{tag}_pre', scope, [(c, a) for c, _, a in plan]))
+			decls.append(self.function(f'f{tag}_pre', scope, [(c, a) for c, _, a in plan] + list(alias_plan.values())))
 		for idx, (c, kind, arity) in enumerate(plan):
-			if rng.random() < 0.5:
-				a = f'A{tag}{idx}'
-				decls.append([f'{a}: TypeAlias = {self.type_expr(self.depth, scope)}'])
-				scope['aliases'].append(a)
-				mine['aliases'].append(a)
 			my_tvs = tvs[:arity]
 			if kind == 'generic':
 				head = f"class {c}(Generic[{', '.join(my_tvs)}]):"
@@ -854,6 +897,8 @@ class ProgGen:
 				body += [f'\t{ln}' for ln in self.function(f'm{j}', scope, later_of(idx), my_tvs, method=True)]
 			decls.append([head, *(body or ['\t...'])])
 			add_scope(c, kind, arity)
+			if idx in alias_plan:
+				decls.append(alias_decl(idx))
 			if rng.random() < 0.5:
 				decls.append(self.function(f'f{tag}{idx}', scope, later_of(idx)))
 			if rng.random() < 0.5:
@@ -967,6 +1012,19 @@ LISTED_GENERIC_FORWARD_ARG = ('from typing import Generic, TypeVar\n'
 	"def f(x: 'G[B]', y: 'dict[str, list[G[B]]]') -> None: ...\n"
 	'class B: ...\n')
 
+# a generic alias mentioned with a type argument before the alias and the class its actual type is built from
+GENERIC_ALIAS_FORWARD = ('from typing import Generic, TypeVar, TypeAlias\n'
+	"T = TypeVar('T')\n"
+	'class User:\n'
+	"\tdef find(self, key: str) -> 'Registry[int]': ...\n"
+	"\tdef all(self) -> 'list[Plain]': ...\n"
+	'class Item(Generic[T]):\n'
+	'\tdef get(self) -> T: ...\n'
+	'Registry: TypeAlias = dict[str, Item[T]]\n'
+	'Plain: TypeAlias = dict[str, Item[int]]\n'
+	'Again: TypeAlias = list[Plain]\n'
+	'def last(a: Again, r: Registry[str]) -> None: ...\n')
+
 ORDER_WITNESS = ('from typing import Generic, TypeVar\n'
 	"def f(x: 'G[int]') -> None: ...\n"
 	"T = TypeVar('T')\n"
@@ -1054,6 +1112,7 @@ def load_programs(ctx: Ctx, stream: str, n_generated: int, real_modules: list[st
 	todo: list[tuple[str, str, dict[str, str], str]] = [('fixed', n, s, e) for n, s, e in FIXED_PROGRAMS]
 	todo.append(('fixed', 'order-witness', {'__main__': ORDER_WITNESS}, '__main__'))
 	todo.append(('fixed', 'listed-generic-forward-arg', {'__main__': LISTED_GENERIC_FORWARD_ARG}, '__main__'))
+	todo.append(('fixed', 'generic-alias-forward', {'__main__': GENERIC_ALIAS_FORWARD}, '__main__'))
 	for fn in sorted(os.listdir(os.path.join(common.CORPUS_DIR, PROP))) if os.path.isdir(os.path.join(common.CORPUS_DIR, PROP)) else []:
 		with open(os.path.join(common.CORPUS_DIR, PROP, fn), encoding='utf-8') as f:
 			rec = json.load(f)
